@@ -12,7 +12,8 @@
      parafac2                              `if tol:`  it >= 1 and |b - a| < tol
      tensor_ring_als                       tol > 0 and it >= 1 and  b - a < tol
      coupled_matrix_tensor_3d_factorization  it > 0 and ( |a - b| / b <= tol  or  a < tol )
-     CPRegressor.fit / TuckerRegressor.fit  it > 1 and |a - b| / a <= tol        (history = norms of the weight tensor) *)
+     CPRegressor.fit / TuckerRegressor.fit  it > 1 and |a - b| / a <= tol        (history = norms of the weight tensor)
+     hals_nnls                             a < tol * f   with f = history[0]    (history = squared norms of the update of a pass; may fire at the first pass) *)
 From Coq Require Import List Arith Bool.
 From TLV Require Import Base.Ops.
 Import ListNotations.
@@ -31,19 +32,22 @@ End Loop.
 
 Section Rules.
   Context {F : Type} (Op : fops F).
-  Inductive stop_kind : Type := AbsDiffLt | DiffLt | RelNewLe | RelOldLeOrSmall.
+  Inductive stop_kind : Type := AbsDiffLt | DiffLt | RelNewLe | RelOldLeOrSmall | RelFirstLt.
   Record stop_rule : Type := mkStop { sr_kind : stop_kind; sr_min_it : nat; sr_tol : F; sr_active : bool }.
-  Definition stop_test (k : stop_kind) (tol a b : F) : bool :=
+  (* a = newest value, b = the one before, f = the first value of the history *)
+  Definition stop_test (k : stop_kind) (tol a b f : F) : bool :=
     match k with
     | AbsDiffLt => fltb Op (fabs Op (fsub Op b a)) tol
     | DiffLt => fltb Op (fsub Op b a) tol
     | RelNewLe => fleb Op (fdiv Op (fabs Op (fsub Op a b)) a) tol
     | RelOldLeOrSmall => fleb Op (fdiv Op (fabs Op (fsub Op a b)) b) tol || fltb Op a tol
+    | RelFirstLt => fltb Op a (fmul Op tol f)
     end.
   Definition stop_fires (r : stop_rule) (it : nat) (hist : list F) : bool :=
     match hist with
-    | a :: b :: _ => sr_active r && (sr_min_it r <=? it) && stop_test (sr_kind r) (sr_tol r) a b
-    | _ => false
+    | a :: b :: _ => sr_active r && (sr_min_it r <=? it) && stop_test (sr_kind r) (sr_tol r) a b (last hist a)
+    | [a] => match sr_kind r with RelFirstLt => sr_active r && (sr_min_it r <=? it) && stop_test RelFirstLt (sr_tol r) a a a | _ => false end
+    | [] => false
     end.
   (* Python truthiness of `tol` (`if tol:`): 0 / 0.0 switch the test off *)
   Definition truthy (tol : F) : bool := negb (feqb Op tol (f0 Op)).
@@ -53,9 +57,10 @@ Section Rules.
   Definition tr_stop (tol : F) : stop_rule := mkStop DiffLt 1 tol (fltb Op (f0 Op) tol).
   Definition cmtf_stop (tol : F) : stop_rule := mkStop RelOldLeOrSmall 1 tol true.
   Definition regressor_stop (tol : F) : stop_rule := mkStop RelNewLe 2 tol true.
-  (* algorithm ids of the correspondence: 0 parafac / nn-HALS, 1 tucker, 2 parafac2, 3 tensor_ring_als, 4 CMTF, 5 regressors *)
+  Definition hals_stop (tol : F) : stop_rule := mkStop RelFirstLt 0 tol true.
+  (* algorithm ids of the correspondence: 0 parafac / nn-HALS, 1 tucker, 2 parafac2, 3 tensor_ring_als, 4 CMTF, 5 regressors, 6 hals_nnls *)
   Definition rule_of (alg : nat) (abs_crit : bool) (tol : F) : stop_rule :=
-    match alg with 0 => parafac_stop abs_crit tol | 1 => tucker_stop tol | 2 => parafac2_stop tol | 3 => tr_stop tol | 4 => cmtf_stop tol | _ => regressor_stop tol end.
+    match alg with 0 => parafac_stop abs_crit tol | 1 => tucker_stop tol | 2 => parafac2_stop tol | 3 => tr_stop tol | 4 => cmtf_stop tol | 5 => regressor_stop tol | _ => hals_stop tol end.
 
   (* the loop replayed on the recorded values: the state is the number of iterations done, the report of the state after i iterations is
      the i-th recorded value (Proofs/DescentProofsLoop.v: the loop over the real states stops after the same number of iterations) *)
